@@ -147,6 +147,13 @@ func c20(w *core.World, r *core.Report) {
 	r.Rule("ERR-BRANCH-USE", 10, "K6 (contradiction rule): on the err != nil outcome of 'v, err := f()' the co-result v is not dereferenced or used as a method receiver (by convention it is nil there).")
 	r.Rule("SPLIT-INDEX", 2, "K2: a constant index >= 1 into the result of strings.Split / SplitN / Fields (input-shaped text) is dominated by a test of len() of that result.")
 
+	r.Rule("TYPED-NIL", 1, "K7: in the boundary scope a function with an interface result does not return a possibly nil POINTER converted to that interface (nil constant of pointer type, or the result of a repository function that has a 'return nil') unless a nil test of the pointer dominates the conversion: the caller's 'x == nil' is false for a typed nil and the next method call dereferences nil.")
+	r.Rule("EXPAND-PROGRESS", 1, "K8: the self-recursion of Converter.ConvertNotificationTypedValues on the result of ExpandUpdate makes progress: in ExpandUpdate no store that puts the input update into a result slice is dominated by the JSON decode of the container branch (a JSON blob on a container is replaced by its expansion, never handed back).")
+	if nT := c20TypedNil(w, r, scope); nT == 0 {
+		r.OK("TYPED-NIL", "no possibly-nil pointer is returned as an interface in the boundary scope", "", "")
+	}
+	c20ExpandProgress(w, r)
+
 	nK1, nK3, nK4, nK6, nK2 := 0, 0, 0, 0, 0
 	// derefParams: functions that select a field of a protobuf-message parameter without a nil guard
 	type pkey struct {
